@@ -46,19 +46,19 @@ pub mod unit {
     use super::env::Decimal;
     broadcast use {group_bigint, ax_decimal_consts, ax_bigint_of};
 
-    // ---- oracle (from the property statement), on sub-units: value = x / 10^18 -----------------
+    // ---- oracle (from the property statement), on sub-units: value = x / o  (o = 10^18 for Decimal, 10^36 for PreciseDecimal) -----------------
     // r/one is the square root of x/one truncated to 18 places  <=>  r^2 <= x*one < (r+1)^2
-    pub open spec fn sqrt_ok(x: int, r: int) -> bool { r >= 0 && r * r <= x * one() < (r + 1) * (r + 1) }
+    pub open spec fn sqrt_ok(o: int, x: int, r: int) -> bool { r >= 0 && r * r <= x * o < (r + 1) * (r + 1) }
     // cube root truncated toward zero: |r|^3 <= |x|*one^2 < (|r|+1)^3, sign of r = sign of x
     pub open spec fn cube(a: int) -> int { a * a * a }
-    pub open spec fn cbrt_ok(x: int, r: int) -> bool {
-        if x >= 0 { r >= 0 && cube(r) <= x * one() * one() < cube(r + 1) }
-        else { r <= 0 && cube(-r) <= (-x) * one() * one() < cube(-r + 1) }
+    pub open spec fn cbrt_ok(o: int, x: int, r: int) -> bool {
+        if x >= 0 { r >= 0 && cube(r) <= x * o * o < cube(r + 1) }
+        else { r <= 0 && cube(-r) <= (-x) * o * o < cube(-r + 1) }
     }
     // n-th root truncated toward zero: |r|^n <= |x|*one^(n-1) < (|r|+1)^n, sign of r = sign of x
-    pub open spec fn nth_root_ok(x: int, n: nat, r: int) -> bool { is_trunc_root(x * ipow(one(), (n - 1) as nat), n, r) }
+    pub open spec fn nth_root_ok(o: int, x: int, n: nat, r: int) -> bool { is_trunc_root(x * ipow(o, (n - 1) as nat), n, r) }
     // exact product truncated toward zero (C24 oracle, needed by checked_powi's last step)
-    pub open spec fn mul_spec(a: int, b: int) -> int { tdiv(a * b, one()) }
+    pub open spec fn mul_spec(o: int, a: int, b: int) -> int { tdiv(a * b, o) }
 
     // ---- lemmas -------------------------------------------------------------------------------
     pub proof fn lemma_ipow_small(a: int)
@@ -68,31 +68,25 @@ pub mod unit {
         assert(a * (a * 1) == a * a) by (nonlinear_arith);
         assert(a * (a * (a * 1)) == a * a * a) by (nonlinear_arith);
     }
-    /// a square root of a 256-bit-safe radicand below 2^191 * 10^18 fits 192 bits
-    pub proof fn lemma_sqrt_fits(x: int, r: int)
-        requires in_i192(x), r >= 0, r * r <= x * one()
-        ensures in_i192(r)
+    /// a root of a radicand below b * o^(n-1) is below b when o < b  (b = 2^191 / 2^255: the type's range)
+    pub proof fn lemma_sqrt_fits(o: int, b: int, x: int, r: int)
+        requires 0 < o < b, x < b, r >= 0, r * r <= x * o
+        ensures r < b
     {
-        let b: int = 0x8000_0000_0000_0000int * 0x1_0000_0000_0000_0000 * 0x1_0000_0000_0000_0000;     // 2^191
-        assert(b == i192_max() + 1);
         if r >= b {
             assert(r * r >= b * b) by (nonlinear_arith) requires r >= b, b > 0;
-            let o = one();
             assert(b * b > (b - 1) * o) by (nonlinear_arith) requires b > o, o > 0;
             assert(x * o <= (b - 1) * o) by (nonlinear_arith) requires x <= b - 1, o > 0;
             assert(false);
         }
     }
-    pub proof fn lemma_cbrt_fits(x: int, r: int)
-        requires 0 <= x <= i192_max() + 1, r >= 0, cube(r) <= x * one() * one()
-        ensures r <= i192_max()
+    pub proof fn lemma_cbrt_fits(o: int, b: int, x: int, r: int)
+        requires 0 < o < b, 0 <= x <= b, r >= 0, cube(r) <= x * o * o
+        ensures r < b
     {
-        let b: int = 0x8000_0000_0000_0000int * 0x1_0000_0000_0000_0000 * 0x1_0000_0000_0000_0000;     // 2^191
-        assert(b == i192_max() + 1);
         if r >= b {
             assert(r * r >= b * b) by (nonlinear_arith) requires r >= b, b > 0;
             assert(r * r * r >= b * b * b) by (nonlinear_arith) requires r * r >= b * b, r >= b, b > 0;
-            let o = one();
             assert(b * b * b > b * o * o) by (nonlinear_arith) requires b > o, o > 0;
             assert(x * o * o <= b * o * o) by (nonlinear_arith) requires x <= b, o > 0;
             assert(false);
@@ -137,14 +131,11 @@ pub mod unit {
         if r1 < r2 { lemma_ipow_mono(r1 + 1, r2, n); }
         if r2 < r1 { lemma_ipow_mono(r2 + 1, r1, n); }
     }
-    /// an n-th root (n >= 2) of |x| * one^(n-1) with |x| <= 2^191 is below 2^191
-    pub proof fn lemma_nth_root_fits(x: int, n: nat, r: int)
-        requires in_i192(x), n >= 2, is_trunc_root(x * ipow(one(), (n - 1) as nat), n, r)
-        ensures in_i192(r), x >= 0 ==> r >= 0, x < 0 ==> r <= 0
+    /// an n-th root (n >= 2) of |x| * o^(n-1) with |x| <= b is below b in magnitude
+    pub proof fn lemma_nth_root_fits(o: int, b: int, x: int, n: nat, r: int)
+        requires 0 < o < b, -b <= x < b, n >= 2, is_trunc_root(x * ipow(o, (n - 1) as nat), n, r)
+        ensures -b < r < b, x >= 0 ==> r >= 0, x < 0 ==> r <= 0
     {
-        let b: int = 0x8000_0000_0000_0000int * 0x1_0000_0000_0000_0000 * 0x1_0000_0000_0000_0000;     // 2^191
-        assert(b == i192_max() + 1);
-        let o = one();
         let p = ipow(o, (n - 1) as nat); let q = ipow(b, (n - 1) as nat);
         lemma_ipow_strict(o, b, (n - 1) as nat);
         lemma_ipow_mono(1, o, (n - 1) as nat); lemma_ipow_01((n - 1) as nat);
@@ -162,9 +153,9 @@ pub mod unit {
     // ---- powers: the result never exceeds the exact power in magnitude ---------------------------
     pub open spec fn iabs(a: int) -> int { if a < 0 { -a } else { a } }
     /// e >= 1:  |r/one| <= |x/one|^e   <=>   |r| * one^(e-1) <= |x|^e
-    pub open spec fn mag_ok(x: int, e: int, r: int) -> bool { iabs(r) * ipow(one(), (e - 1) as nat) <= ipow(iabs(x), e as nat) }
+    pub open spec fn mag_ok(o: int, x: int, e: int, r: int) -> bool { iabs(r) * ipow(o, (e - 1) as nat) <= ipow(iabs(x), e as nat) }
     /// e >= 1:  |r/one| <= 1 / |x/one|^e   <=>   |r| * |x|^e <= one^(e+1)
-    pub open spec fn mag_ok_neg(x: int, e: int, r: int) -> bool { iabs(r) * ipow(iabs(x), e as nat) <= ipow(one(), (e + 1) as nat) }
+    pub open spec fn mag_ok_neg(o: int, x: int, e: int, r: int) -> bool { iabs(r) * ipow(iabs(x), e as nat) <= ipow(o, (e + 1) as nat) }
 
     pub proof fn lemma_ipow_add(a: int, m: nat, n: nat)
         ensures ipow(a, m + n) == ipow(a, m) * ipow(a, n)
@@ -208,11 +199,11 @@ pub mod unit {
         assert((ap / ad) * ad == ad * (ap / ad)) by (nonlinear_arith);
     }
     /// squaring step: r within the k-th power of x2 = trunc(x*x/one)  ==>  r within the 2k-th power of x
-    pub proof fn lemma_sq_step(x: int, x2: int, k: int, r: int)
-        requires k >= 1, x2 == tdiv(x * x, one()), mag_ok(x2, k, r)
-        ensures mag_ok(x, 2 * k, r)
+    pub proof fn lemma_sq_step(o: int, x: int, x2: int, k: int, r: int)
+        requires o >= 1, k >= 1, x2 == tdiv(x * x, o), mag_ok(o, x2, k, r)
+        ensures mag_ok(o, x, 2 * k, r)
     {
-        let a = iabs(x); let a2 = iabs(x2); let b = iabs(r); let o = one();
+        let a = iabs(x); let a2 = iabs(x2); let b = iabs(r);
         lemma_tdiv_mag(x * x, o); lemma_abs_mul(x, x);
         assert(a2 * o <= a * a);
         let ok1 = ipow(o, (k - 1) as nat); let ok = ipow(o, k as nat); let o2k1 = ipow(o, (2 * k - 1) as nat);
@@ -230,11 +221,11 @@ pub mod unit {
         assert((k as nat) + (k as nat) == (2 * k) as nat);
     }
     /// odd step: b within the 2k-th power of x, r = trunc(x*b/one)  ==>  r within the (2k+1)-th power of x
-    pub proof fn lemma_odd_step(x: int, bb: int, k: int, r: int)
-        requires k >= 1, mag_ok(x, 2 * k, bb), r == tdiv(x * bb, one())
-        ensures mag_ok(x, 2 * k + 1, r)
+    pub proof fn lemma_odd_step(o: int, x: int, bb: int, k: int, r: int)
+        requires o >= 1, k >= 1, mag_ok(o, x, 2 * k, bb), r == tdiv(x * bb, o)
+        ensures mag_ok(o, x, 2 * k + 1, r)
     {
-        let a = iabs(x); let b = iabs(bb); let c = iabs(r); let o = one();
+        let a = iabs(x); let b = iabs(bb); let c = iabs(r);
         lemma_tdiv_mag(x * bb, o); lemma_abs_mul(x, bb);
         assert(c * o <= a * b);
         let o2k1 = ipow(o, (2 * k - 1) as nat); let a2k = ipow(a, (2 * k) as nat);
@@ -244,11 +235,11 @@ pub mod unit {
         assert(c * (o * o2k1) <= a * a2k) by (nonlinear_arith) requires c * o <= a * b, b * o2k1 <= a2k, o2k1 >= 0, a >= 0, b >= 0, c >= 0, o >= 0;
     }
     /// negative exponent: r within the e-th power of y = trunc(one*one/x)  ==>  r within the e-th power of 1/x
-    pub proof fn lemma_recip_step(x: int, y: int, e: int, r: int)
-        requires e >= 1, x != 0, y == tdiv(one() * one(), x), mag_ok(y, e, r)
-        ensures mag_ok_neg(x, e, r)
+    pub proof fn lemma_recip_step(o: int, x: int, y: int, e: int, r: int)
+        requires o >= 1, e >= 1, x != 0, y == tdiv(o * o, x), mag_ok(o, y, e, r)
+        ensures mag_ok_neg(o, x, e, r)
     {
-        let a = iabs(x); let ay = iabs(y); let c = iabs(r); let o = one();
+        let a = iabs(x); let ay = iabs(y); let c = iabs(r);
         lemma_tdiv_mag(o * o, x);
         assert(ay * a <= o * o);
         let oe1 = ipow(o, (e - 1) as nat); let oe = ipow(o, e as nat); let ae = ipow(a, e as nat); let ye = ipow(ay, e as nat);
@@ -265,6 +256,9 @@ pub mod unit {
             requires c * oe1 <= ye, ye * ae <= oe * oe, oe == o * oe1, ae >= 0, c >= 0, oe1 >= 1;
         assert(c * ae <= o * oe) by (nonlinear_arith) requires (c * ae) * oe1 <= (o * oe) * oe1, oe1 >= 1;
     }
+    /// 2^191 (the magnitude bound of I192) and 2^255 (I256)
+    pub open spec fn b192() -> int { 0x8000_0000_0000_0000int * 0x1_0000_0000_0000_0000 * 0x1_0000_0000_0000_0000 }
+    pub open spec fn b256() -> int { 0x8000_0000_0000_0000int * 0x1_0000_0000_0000_0000 * 0x1_0000_0000_0000_0000 * 0x1_0000_0000_0000_0000 }
     pub proof fn lemma_mul_width(p: int)
         ensures in_i192(tdiv(p, one())) ==> in_i256(p)
     {
@@ -284,15 +278,15 @@ pub mod unit {
         /*@fn radix-common/src/math/decimal.rs :: impl Decimal :: fn checked_sqrt
         @sig
             ensures ret is None <==> self.0.v() < 0,
-                    ret matches Some(r) ==> sqrt_ok(self.0.v(), r.0.v()),
+                    ret matches Some(r) ==> sqrt_ok(one(), self.0.v(), r.0.v()),
         @before <<let sqrt>>
             proof { let x = self.0.v();
-                    assert forall|r: int| is_floor_root(x * one(), 2, r) implies in_i192(r) && sqrt_ok(x, r) by {
-                        lemma_ipow_small(r); lemma_ipow_small(r + 1); lemma_sqrt_fits(x, r); } }
+                    assert forall|r: int| is_floor_root(x * one(), 2, r) implies 0 <= r <= i192_max() && sqrt_ok(one(), x, r) by {
+                        lemma_ipow_small(r); lemma_ipow_small(r + 1); lemma_sqrt_fits(one(), b192(), x, r); assert(b192() == i192_max() + 1); } }
         @*/
         /*@fn radix-common/src/math/decimal.rs :: impl Decimal :: fn checked_cbrt
         @sig
-            ensures ret matches Some(r) && cbrt_ok(self.0.v(), r.0.v()),
+            ensures ret matches Some(r) && cbrt_ok(one(), self.0.v(), r.0.v()),
         @entry
             proof { assert(Decimal::ZERO.0.v() == 0); assert(cube(0int) == 0 && cube(0int + 1) == 1); }
         @before <<let correct_nb>>
@@ -301,48 +295,48 @@ pub mod unit {
             proof { let x = self.0.v(); let big = correct_nb.v();
                     assert(big == x * one() * one());
                     assert forall|r: int| is_floor_root(big, 3, r) && x >= 0 implies 0 <= r <= i192_max() && cube(r) <= big < cube(r + 1) by {
-                        lemma_ipow_small(r); lemma_ipow_small(r + 1); lemma_cbrt_fits(x, r); }
+                        lemma_ipow_small(r); lemma_ipow_small(r + 1); lemma_cbrt_fits(one(), b192(), x, r); }
                     let nbig = -big;
                     assert forall|r: int| #[trigger] is_floor_root(nbig, 3, r) && x < 0 implies 0 <= r <= i192_max() && cube(r) <= nbig < cube(r + 1) by {
-                        lemma_ipow_small(r); lemma_ipow_small(r + 1); lemma_cbrt_fits(-x, r); } }
+                        lemma_ipow_small(r); lemma_ipow_small(r + 1); lemma_cbrt_fits(one(), b192(), -x, r); } }
         @*/
         /*@fn radix-common/src/math/decimal.rs :: impl Decimal :: fn checked_nth_root
         @sig
             ensures ret is None <==> ((self.0.v() < 0 && n % 2 == 0) || n == 0),
-                    ret matches Some(r) ==> nth_root_ok(self.0.v(), n as nat, r.0.v()),
+                    ret matches Some(r) ==> nth_root_ok(one(), self.0.v(), n as nat, r.0.v()),
         @entry
             proof { let x = self.0.v(); lemma_ipow_small(x); lemma_ipow_small(x + 1); lemma_ipow_small(-x); lemma_ipow_small(-x + 1); lemma_ipow_small(one());
                     lemma_ipow_01(n as nat); assert(Decimal::ZERO.0.v() == 0);
                     assert(0 * ipow(one(), (n - 1) as nat) == 0) by (nonlinear_arith);
                     assert(n >= 1 ==> is_floor_root(0, n as nat, 0));
-                    assert(n >= 1 && x == 0 ==> nth_root_ok(x, n as nat, 0)); }
+                    assert(n >= 1 && x == 0 ==> nth_root_ok(one(), x, n as nat, 0)); }
         @after <<let correct_nb>>
             proof { let x = self.0.v(); let p = ipow(one(), (n - 1) as nat);
                     lemma_ipow_mono(1, one(), (n - 1) as nat); lemma_ipow_01((n - 1) as nat);
                     assert(correct_nb.v() == x * p);
                     assert(x * p >= 0 <==> x >= 0) by (nonlinear_arith) requires p >= 1;
-                    assert forall|r: int| is_trunc_root(correct_nb.v(), n as nat, r) implies in_i192(r) by { lemma_nth_root_fits(x, n as nat, r); } }
+                    assert forall|r: int| is_trunc_root(correct_nb.v(), n as nat, r) implies in_i192(r) by { lemma_nth_root_fits(one(), b192(), x, n as nat, r); } }
         @*/
         /*@fn radix-common/src/math/decimal.rs :: impl Decimal :: fn checked_powi
         @sig
             ensures exp == 0 ==> (ret matches Some(r) && r.0.v() == one()),
                     exp == 1 ==> ret == Some(*self),
-                    exp >= 1 ==> (ret matches Some(r) ==> mag_ok(self.0.v(), exp as int, r.0.v())),
-                    exp < 0 ==> (ret matches Some(r) ==> mag_ok_neg(self.0.v(), -(exp as int), r.0.v())),
+                    exp >= 1 ==> (ret matches Some(r) ==> mag_ok(one(), self.0.v(), exp as int, r.0.v())),
+                    exp < 0 ==> (ret matches Some(r) ==> mag_ok_neg(one(), self.0.v(), -(exp as int), r.0.v())),
             decreases (if exp < 0 { 1 - exp as int } else { exp as int })
         @entry
             let ghost e0 = exp as int;
             proof { lemma_ipow_small(iabs(self.0.v())); lemma_ipow_small(one()); }
         @after <<let exp = mul(>>
             proof { assert(exp as int == e0 * -1); assert(exp == -e0);
-                    assert forall|r: int| mag_ok(dec_192.v(), exp as int, r) implies mag_ok_neg(self.0.v(), exp as int, r) by {
-                        lemma_recip_step(self.0.v(), dec_192.v(), exp as int, r); } }
+                    assert forall|r: int| mag_ok(one(), dec_192.v(), exp as int, r) implies mag_ok_neg(one(), self.0.v(), exp as int, r) by {
+                        lemma_recip_step(one(), self.0.v(), dec_192.v(), exp as int, r); } }
         @after <<let exp = div(exp, 2)>>
-            proof { assert forall|r: int| mag_ok(dec_192.v(), exp as int, r) implies mag_ok(self.0.v(), e0, r) by {
-                        lemma_sq_step(self.0.v(), dec_192.v(), exp as int, r); } }
+            proof { assert forall|r: int| mag_ok(one(), dec_192.v(), exp as int, r) implies mag_ok(one(), self.0.v(), e0, r) by {
+                        lemma_sq_step(one(), self.0.v(), dec_192.v(), exp as int, r); } }
         @after <<let b = sub_dec>>
-            proof { lemma_sq_step(self.0.v(), dec_192.v(), exp as int, b.0.v());
-                    lemma_odd_step(self.0.v(), b.0.v(), exp as int, mul_spec(self.0.v(), b.0.v())); }
+            proof { lemma_sq_step(one(), self.0.v(), dec_192.v(), exp as int, b.0.v());
+                    lemma_odd_step(one(), self.0.v(), b.0.v(), exp as int, mul_spec(one(), self.0.v(), b.0.v())); }
         @closure 1 := |x: i64, y: i64| -> (r: Option<i64>) ensures y == 2 && x >= 0 ==> r == Some((x / 2) as i64)
         @closure 2 := |x: i64, y: i64| -> (r: Option<i64>) ensures r matches Some(v) ==> v == x - y
         @closure 3 := |x: i64, y: i64| -> (r: Option<i64>) ensures r matches Some(v) ==> v == x * y
@@ -352,8 +346,9 @@ pub mod unit {
         type Output = Self;
         /*@fn radix-common/src/math/decimal.rs :: impl CheckedMul<Decimal> for Decimal :: fn checked_mul
         @sig
-            ensures ret matches Some(r) ==> r.0.v() == mul_spec(self.0.v(), other.0.v()),
-                    ret is Some <==> in_i192(mul_spec(self.0.v(), other.0.v())),
+            ensures ret matches Some(r) ==> r.0.v() == mul_spec(one(), self.0.v(), other.0.v()),
+                    // (the wide -> narrow conversion of the bnum wrappers rejects -2^191: known finding under C24)
+                    ret is Some <==> (in_i192(mul_spec(one(), self.0.v(), other.0.v())) && mul_spec(one(), self.0.v(), other.0.v()) != i192_min()),
         @entry
             proof { lemma_mul_width(self.0.v() * other.0.v()); }
         @subst <<c_192.map(Self)>> => <<c_192.map(|x: I192| -> (r: Decimal) ensures r.0 == x { Decimal(x) })>> why: Verus rejects a tuple-struct constructor used as a function value; the closure is its eta-expansion
